@@ -23,44 +23,66 @@
 (*              urgent, arrived earlier (a request let through on arrival is   *)
 (*              not "released from the queue": the statement gives waiters     *)
 (*              no precedence over it)                                         *)
+(*   NoStrand   a waiting request whose turn has come - at some instant of its  *)
+(*              wait, before its time-to-live ended, quota was free in the     *)
+(*              current window and no request entitled to go before it waited - *)
+(*              is not refused any more (it is released, not left to expire):   *)
+(*              `turn` remembers those requests.  A later arrival that is let   *)
+(*              through first is not forbidden as such; a waiter that then      *)
+(*              expires although its turn had come is.                          *)
 (*   RejectOnly refusal on arrival only when QSize requests wait or are just   *)
 (*              leaving the queue (decided, call not yet returned); refusal of a *)
 (*              waiter only when its time-to-live really elapsed and every     *)
 (*              window it waited in (from its arrival up to, not including,    *)
-(*              the instant its time-to-live ended) was used up - otherwise    *)
-(*              its turn had come and it was left to expire (NoStrand)         *)
+(*              the instant its time-to-live ended) was used up before its    *)
+(*              turn came                                                      *)
 EXTENDS Integers, FiniteSets, TLC
 
 CONSTANTS Quota, W, QSize
 
 VARIABLES
     now,     \* current instant (ticks)
-    rq,      \* requests seen so far: id -> [st, arr, prio, ttl, inq]   st \in {"waiting", "released", "rejected"};
+    rq,      \* requests seen so far: id -> [st, arr, sub, prio, ttl, inq]   st \in {"waiting", "released", "rejected"};
+             \*   arr = arrival instant (tick), sub = order of arrival within the tick (0 = not known: a tie);
              \*   inq = it was made to wait and its call has not returned yet
     rel,     \* grid window -> number of requests let through in it
+    turn,    \* requests whose turn has come while they waited
     last     \* last event (output only)
 
-pvars == <<now, rq, rel, last>>
+pvars == <<now, rq, rel, turn, last>>
 
 Win(t) == t \div W
 Rel(w) == IF w \in DOMAIN rel THEN rel[w] ELSE 0
 Waiting == {i \in DOMAIN rq : rq[i].st = "waiting"}
 Occupying == {i \in DOMAIN rq : rq[i].inq}
 \* j is entitled to go before i
-Better(j, i) == rq[j].prio < rq[i].prio \/ (rq[j].prio = rq[i].prio /\ rq[j].arr < rq[i].arr)
+Earlier(a, b) == a.arr < b.arr \/ (a.arr = b.arr /\ a.sub > 0 /\ b.sub > 0 /\ a.sub < b.sub)
+Better(j, i) == rq[j].prio < rq[i].prio \/ (rq[j].prio = rq[i].prio /\ Earlier(rq[j], rq[i]))
 Expired(j) == now >= rq[j].arr + rq[j].ttl
-\* every window request i waited in was used up
+\* every window request i waited in was used up (kept for the classification of witnesses)
 NoSlotFor(i) == \A w \in Win(rq[i].arr) .. Win(rq[i].arr + rq[i].ttl - 1) : Rel(w) = Quota
+\* the requests whose turn has come in the state (q, r, t): waiting, time-to-live not yet over, quota free in the
+\* current window for them and for everybody who waits and is entitled to go first
+TurnIn(q, r, t) ==
+    LET all == {i \in DOMAIN q : q[i].st = "waiting"}            \* (a waiter whose time-to-live is over may still get the slot)
+        wt == {i \in all : t < q[i].arr + q[i].ttl}
+        used == IF t \div W \in DOMAIN r THEN r[t \div W] ELSE 0
+        before(j, i) == q[j].prio < q[i].prio \/ (q[j].prio = q[i].prio /\ Earlier(q[j], q[i]))
+        \* fewer waiters that are not strictly behind i than free slots (requests that tie with i - equal priority,
+        \* arrival in the same tick in unknown order - may be served first: then it is not yet i's turn)
+    IN  {i \in wt : Cardinality({j \in all \ {i} : ~before(i, j)}) < Quota - used}
+\* every action ends with: whose turn has come now is remembered
+Turns == turn' = turn \cup TurnIn(rq', rel', now')
 
 Count == rel' = (Win(now) :> Rel(Win(now)) + 1) @@ rel
-New(i, pr, tl, st) == rq' = (i :> [st |-> st, arr |-> now, prio |-> pr, ttl |-> tl, inq |-> st = "waiting"]) @@ rq
+New(i, pr, tl, sb, st) == rq' = (i :> [st |-> st, arr |-> now, sub |-> sb, prio |-> pr, ttl |-> tl, inq |-> st = "waiting"]) @@ rq
 
-Init == now = 0 /\ rq = <<>> /\ rel = <<>> /\ last = [ev |-> "init"]
+Init == now = 0 /\ rq = <<>> /\ rel = <<>> /\ turn = {} /\ last = [ev |-> "init"]
 
 Advance(d) ==
     /\ d > 0 /\ now' = now + d
     /\ last' = [ev |-> "adv", d |-> d]
-    /\ UNCHANGED <<rq, rel>>
+    /\ UNCHANGED <<rq, rel>> /\ Turns
 
 \* THE PROPERTY as guards: is this outcome permitted now?
 CanAdmit == Rel(Win(now)) < Quota                                                \* PerWindow
@@ -69,49 +91,49 @@ CanEnqueue == Cardinality(Waiting) < QSize                                      
 CanRelease(i) == /\ Rel(Win(now)) < Quota                                        \* PerWindow
                  /\ \A j \in Waiting \ {i} : Better(j, i) => Expired(j)          \* Order
 CanRejectTTL(i) == /\ Expired(i)               \* the time-to-live really elapsed
-                   /\ NoSlotFor(i)             \* ... while no slot was available for it (NoStrand)
+                   /\ i \notin turn            \* ... and its turn never came while it waited (NoStrand)
 
-Admit(i, pr, tl) ==
+Admit(i, pr, tl, sb) ==
     /\ i \notin DOMAIN rq
     /\ CanAdmit
-    /\ New(i, pr, tl, "released") /\ Count
+    /\ New(i, pr, tl, sb, "released") /\ Count
     /\ last' = [ev |-> "admit", i |-> i]
-    /\ UNCHANGED now
+    /\ UNCHANGED now /\ Turns
 
-RejectFull(i, pr, tl) ==
+RejectFull(i, pr, tl, sb) ==
     /\ i \notin DOMAIN rq
     /\ CanRejectFull
-    /\ New(i, pr, tl, "rejected")
+    /\ New(i, pr, tl, sb, "rejected")
     /\ last' = [ev |-> "full", i |-> i]
-    /\ UNCHANGED <<now, rel>>
+    /\ UNCHANGED <<now, rel>> /\ Turns
 
-Enqueue(i, pr, tl) ==
+Enqueue(i, pr, tl, sb) ==
     /\ i \notin DOMAIN rq
     /\ CanEnqueue
-    /\ New(i, pr, tl, "waiting")
+    /\ New(i, pr, tl, sb, "waiting")
     /\ last' = [ev |-> "enqueue", i |-> i]
-    /\ UNCHANGED <<now, rel>>
+    /\ UNCHANGED <<now, rel>> /\ Turns
 
 Release(i) ==
     /\ i \in Waiting
     /\ CanRelease(i)
     /\ rq' = [rq EXCEPT ![i].st = "released"] /\ Count
     /\ last' = [ev |-> "release", i |-> i]
-    /\ UNCHANGED now
+    /\ UNCHANGED now /\ Turns
 
 RejectTTL(i) ==
     /\ i \in Waiting
     /\ CanRejectTTL(i)
     /\ rq' = [rq EXCEPT ![i].st = "rejected"]
     /\ last' = [ev |-> "ttl", i |-> i]
-    /\ UNCHANGED <<now, rel>>
+    /\ UNCHANGED <<now, rel>> /\ Turns
 
 \* the call of a request that had to wait returns
 Leave(i) ==
     /\ i \in DOMAIN rq /\ rq[i].inq /\ rq[i].st # "waiting"
     /\ rq' = [rq EXCEPT ![i].inq = FALSE]
     /\ last' = [ev |-> "leave", i |-> i]
-    /\ UNCHANGED <<now, rel>>
+    /\ UNCHANGED <<now, rel, turn>>
 
 -------------------------------------------------------------------------------
 \* bounded instance of P itself
@@ -119,7 +141,7 @@ CONSTANTS PReq, PPrio, PTtl, PMaxNow
 
 Next ==
     \/ now < PMaxNow /\ Advance(1)
-    \/ \E i \in PReq : Admit(i, PPrio[i], PTtl[i]) \/ RejectFull(i, PPrio[i], PTtl[i]) \/ Enqueue(i, PPrio[i], PTtl[i])
+    \/ \E i \in PReq : Admit(i, PPrio[i], PTtl[i], 0) \/ RejectFull(i, PPrio[i], PTtl[i], 0) \/ Enqueue(i, PPrio[i], PTtl[i], 0)
                        \/ Release(i) \/ RejectTTL(i) \/ Leave(i)
 
 Spec == Init /\ [][Next]_pvars
